@@ -56,3 +56,11 @@ package cmd
 //@   requires c != nil && cmd != nil
 //@   modifies *
 //@   ensures[C01] err == nil && !c.show ==> c.endorsement != nil && fresh(c.endorsement)
+
+// C19 (one value per requested path, in the order given): the mask subcommand hands InspectMask the --path values as
+// they were collected - same slice, same order, nothing merged or dropped - and the endorsement the inspect command
+// loaded.
+//@ func (*maskSubCommand).runE
+//@   requires m != nil && cmd != nil
+//@   modifies *
+//@   atcall InspectMask requires[C19] p2 != nil && same(p2.Paths, old(m.paths)) && len(p2.Paths) == old(len(m.paths)) && forall(i, int, 0 <= i && i < len(p2.Paths) ==> p2.Paths[i] == old(m.paths[i])) && p1 == inspect.endorsement
